@@ -400,3 +400,50 @@ class InlineGraph(Kernel):
 
 
 KERNELS.append(InlineGraph())
+
+
+class SkipCastK(Kernel):
+    id = "C05.P.skip_cast"
+    prop = "C05"
+    file = "einx/_src/tracer/optimizer/graph.py"
+    module = "einx._src.tracer.optimizer.graph"
+    qual = "SkipCast/__call__"
+    describe = ("a cast node is replaced only by transform(its own input) (a cast never changes the value: den(cast(v)) = den(v)), and only when the tracer "
+                "signatures of input and output are equal (so static types/shapes seen by later nodes are unchanged)")
+
+    def setup(self, eng, bound=None):
+        self.x = z3.Const("x", Obj)
+        self.sig = z3.Function("signature_of", Obj, Obj)
+
+        def c_transform(e, p, av, kw):
+            return SObj(transform(av[0].t))
+
+        def c_map(e, p, av, kw):
+            # pytree.map(lambda t: t._tracer_type(None), tree): the tree of tracer signatures (a deterministic function of the tree)
+            return SObj(self.sig(av[1].t))
+
+        isres_node, _ = locate(self.path(), "SkipCast/_is_result_of_call")
+        isres = SFunc(isres_node)
+
+        def c_isres(e, p, av, kw):
+            return list(e.apply(isres, [SObj(z3.Const("self", Obj))] + av, kw, p, isres_node))
+
+        eng.contracts.update({"transform": SContract(c_transform), "pytree.map": SContract(c_map), "self._is_result_of_call": SContract(c_isres)})
+        return {"self": SObj(z3.Const("self", Obj)), "x": SObj(self.x), "transform": eng.contracts["transform"]}, [], {}
+
+    def post(self, eng, out, p):
+        if not isinstance(out, Return) or not isinstance(out.v, STup) or len(out.v.items) != 2:
+            return
+        changed, new = out.v.items
+        c = z3.simplify(eng.truth(changed))
+        if z3.is_false(c):
+            return
+        org = origin(self.x)
+        inp = uf("attr_input", Obj, Obj)(org)
+        outp = uf("attr_output", Obj, Obj)(org)
+        eng.oblige("post:changed => x is the result of a cast", p, z3.Implies(c, z3.And(is_tracer(self.x), uf("is_tracer.Cast", Obj, B)(org))), "post")
+        eng.oblige("post:changed => the cast's input and output have equal tracer signatures", p, z3.Implies(c, self.sig(inp) == self.sig(outp)), "post")
+        eng.oblige("post:changed => result is transform(input of the cast)", p, z3.Implies(c, new.t == transform(inp)) if isinstance(new, SObj) else z3.Not(c), "post")
+
+
+KERNELS.append(SkipCastK())
